@@ -229,11 +229,13 @@ def check_stdin(case, ctx):
         outp = os.path.join(tmp, "fromstdin.records")
         env = dict(os.environ, PYTHONPATH=REPO)
         with open(path, "rb") as f:
-            p = subprocess.run([sys.executable, "-m", "flow.record.tools.rdump", "-", "-w", outp], stdin=f,
+            p = subprocess.run([sys.executable, "-m", "flow.record.tools.rdump", case.get("stdin_name", "-"), "-w", outp], stdin=f,
                                stdout=subprocess.PIPE, stderr=subprocess.PIPE, env=env, timeout=120)
-        ctx.cls("cell:%s/%s" % (container, codec))
+        ctx.cls("cell:%s/%s" % (container, codec), "stdin-named:%s" % case.get("stdin_name", "-"))
         if records:
             ctx.nontriv()
+        if case.get("stdin_name", "-") != "-":
+            base += "/" + case["stdin_name"].split(":")[0] + "-scheme"
         if p.returncode != 0 or not os.path.exists(outp):
             raise Violation(base + "/rdump-failed", "rc=%s stderr=%s" % (p.returncode, p.stderr[-400:].decode("utf8", "replace")))
         _, got = read_all(lambda: RecordReader(outp))
@@ -406,7 +408,8 @@ def stdin_cells(tier):
                                        "cls": None, "gen": g}),
                        gen.M("plain", {"desc": ("t/avro", AVRO_FIELDS), "vals": [None, None, None, None], "src": None,
                                        "cls": None, "gen": g})]
-            out.append({"container": container, "codec": codec, "seq": seq})
+            for naming in (("-", "stream://-", "stream://") if container == "stream" else ("-", "avro://-", "avro://")):
+                out.append({"container": container, "codec": codec, "seq": seq, "stdin_name": naming})
     return out
 
 
